@@ -29,8 +29,9 @@ Record safe_db (f : fsys) (hs : list (N * N)) (dr : list N) (x : wdb) : Prop := 
   sd_docs : forall docs id d, fs_get f (x_dir x, 2, 0) = Some (FCk docs) -> find_doc docs id = Some d ->
             In (id, x_dir x) hs -> ~ In id dr -> exists c, In c (recs x) /\ agrees d c;
   sd_ids : NoDup (map c_id (recs x));
-  sd_wals : NoDup (map c_wal (recs x));
+  sd_wals : NoDup (flat_map c_allw (recs x));
   sd_kw : forall c, In c (recs x) -> kind (c_wal c) = 1;
+  sd_kx : forall c n, In c (recs x) -> In n (c_xw c) -> kind n = 1 /\ fst (fst n) <> x_dir x;
   sd_ko : forall o, In o (x_objs x) -> kind (o_name o) = 0;
   sd_kt : forall n, In n (rn x) -> kind n = 0;
   sd_walid : forall c, In c (recs x) -> fst (fst (c_wal c)) = x_dir x -> snd (c_wal c) < w_id (d_wal (x_core x));
@@ -48,7 +49,7 @@ Record Safe (w : world) : Prop := mkSafe {
   sf_dirs : forall i x, nth_error (g_dbs w) i = Some x -> x_state x = Live -> x_dir x < g_nextdir w;
   sf_hdirs : forall id D, In (id, D) (g_handles w) -> D < g_nextdir w;
   sf_kinds : forall n docs d, fs_get (g_fs w) n = Some (FCk docs) -> In d docs ->
-             kind (dc_wal d) = 1 /\ forall t, In t (dc_tables d) -> kind (td_name t) = 0
+             kind (dc_wal d) = 1 /\ (forall t, In t (dc_tables d) -> kind (td_name t) = 0) /\ (forall n, In n (dc_xw d) -> kind n = 1)
 }.
 
 (* ------------------------------------------------------------------ the monitor: what a deleting step must not touch *)
@@ -72,7 +73,7 @@ Definition d11_pattern (w : world) : Prop :=
   exists i x o, nth_error (g_dbs w) i = Some x /\ x_state x = Dropped /\ In o (x_objs x) /\ o_fromdoc o = false /\ protects w i (o_name o).
 
 Definition destroy_ok (w : world) (d : N) (x1 : wdb) : Prop :=
-  forall c, In c (x_pending x1) -> ~ protects (save_write w x1) (N.to_nat d) (c_wal c).
+  forall c n, In c (x_pending x1) -> In n (c_allw c) -> ~ protects (save_write w x1) (N.to_nat d) n.
 Definition retain_x1 (x : wdb) (ids : list N) : wdb :=
   with_ck x (filter (retain_keeps ids) (x_ckpts x)) (x_pending x ++ filter (fun c => negb (retain_keeps ids c)) (x_ckpts x)) (x_cktasks x).
 Definition ckpt_x1 (x : wdb) (id : N) : wdb :=
@@ -91,6 +92,10 @@ Definition step_ok (w : world) (o : op) : Prop :=
   | ORestore _ id same _ _ =>
       ~ In id (g_dropped w) /\
       (same = true -> forall hd i x, handle_dir w id = Some hd -> nth_error (g_dbs w) i = Some x -> x_state x = Live -> x_dir x <> hd)
+  | ORestoreM _ id dirs _ _ =>
+      ~ In id (g_dropped w) /\
+      (forall ds, load_docs w id dirs = inl (Some ds) ->
+         NoDup (map dc_wal ds) /\ forall d, In d ds -> fst (fst (dc_wal d)) <> g_nextdir w)
   | OStepCompact _ (CRadded names) => forall n, In n names -> kind n = 0
   | OStepCompact _ (CRswapped _ added) => forall a, In a added -> kind (fst a) = 0
   | _ => True
@@ -459,11 +464,13 @@ Proof.
   intros S OK. cbn [step]. destruct (get_db w d) as [x|] eqn:G; [|exact S].
   cbn [step_ok] in OK. destruct (OK x G) as [_ OK']. clear OK. rename OK' into OK.
   cbn [db_checkpoint].
-  set (rec := mkCk id (d_tables (x_core x)) (x_dir x, 1, w_id (d_wal (x_core x))) (wal_content (d_wal (x_core x))) (d_latest (x_core x)) (d_seq (x_core x))).
+  set (rec := mkCk id (d_tables (x_core x)) (x_dir x, 1, w_id (d_wal (x_core x))) (wal_content (d_wal (x_core x))) (d_latest (x_core x)) (d_seq (x_core x)) []).
   eapply safe_local0; try eassumption; try easy_side.
   intros _ SD. destruct SD.
-  assert (forall c, In c (recs x) -> c_wal c <> c_wal rec) as WN.
-  { intros c Hc E. specialize (sd_walid0 c Hc). rewrite E in sd_walid0. cbn in sd_walid0. specialize (sd_walid0 eq_refl). lia. }
+  assert (forall c n, In c (recs x) -> In n (c_allw c) -> n <> c_wal rec) as WN.
+  { intros c n Hc [<-|Hn] E.
+    - specialize (sd_walid0 c Hc). rewrite E in sd_walid0. cbn in sd_walid0. specialize (sd_walid0 eq_refl). lia.
+    - destruct (sd_kx0 c n Hc Hn) as [_ ND]. apply ND. rewrite E. reflexivity. }
   constructor; cbn [with_ck with_core x_dir x_ckpts x_pending x_cktasks x_objs x_core].
   - intros n Hn. apply sd_reach0. apply in_rn_parts in Hn. apply in_rn_parts. cbn in Hn.
     destruct Hn as [Hn|[Hn|[Hn|Hn]]]; auto. unfold recs in Hn. cbn in Hn.
@@ -476,11 +483,13 @@ Proof.
   - unfold recs. cbn. rewrite <- app_assoc. cbn [app]. rewrite map_app. cbn [map]. apply nodup_insert.
     + rewrite <- map_app. exact sd_ids0.
     + rewrite <- map_app. exact OK.
-  - unfold recs. cbn. rewrite <- app_assoc. cbn [app]. rewrite map_app. cbn [map]. apply nodup_insert.
-    + rewrite <- map_app. exact sd_wals0.
-    + rewrite <- map_app. intro H. apply in_map_iff in H. destruct H as [c [E Hc]]. exact (WN c Hc E).
+  - unfold recs. cbn. rewrite <- app_assoc. cbn [app]. rewrite flat_map_app. cbn [flat_map c_allw c_wal c_xw rec app]. apply nodup_insert.
+    + rewrite <- flat_map_app. exact sd_wals0.
+    + rewrite <- flat_map_app. intro H. apply in_flat_map in H. destruct H as [c [Hc Hn]]. exact (WN c _ Hc Hn eq_refl).
   - intros c Hc. unfold recs in Hc. cbn in Hc. rewrite <- app_assoc in Hc. apply in_app_or in Hc.
     destruct Hc as [Hc|[<-|Hc]]; [apply sd_kw0; unfold recs; apply in_or_app; auto|reflexivity|apply sd_kw0; unfold recs; apply in_or_app; auto].
+  - intros c n Hc Hn. unfold recs in Hc. cbn in Hc. rewrite <- app_assoc in Hc. apply in_app_or in Hc.
+    destruct Hc as [Hc|[<-|Hc]]; [apply (sd_kx0 c n); [unfold recs; apply in_or_app; auto|exact Hn]|destruct Hn|apply (sd_kx0 c n); [unfold recs; apply in_or_app; auto|exact Hn]].
   - exact sd_ko0.
   - intros n Hn. apply sd_kt0. apply in_rn_parts in Hn. apply in_rn_parts. cbn in Hn.
     destruct Hn as [Hn|[Hn|[Hn|Hn]]]; auto. unfold recs in Hn. cbn in Hn.
@@ -570,10 +579,11 @@ Proof.
   - exact sf_hdirs0.
   - intros n docs dd Gn Hd. destruct (fname_eqb n (x_dir x, 2, 0)) eqn:E.
     + apply fname_eqb_eq in E. subst n. unfold f' in Gn. rewrite fs_get_put_same in Gn. inversion Gn; subst docs.
-      apply in_map_iff in Hd. destruct Hd as [c [<- Hc]]. destruct SD. cbn [doc_of dc_wal dc_tables]. split.
+      apply in_map_iff in Hd. destruct Hd as [c [<- Hc]]. destruct SD. cbn [doc_of dc_wal dc_tables dc_xw]. split; [|split].
       * apply sd_kw0. unfold recs. apply in_or_app. auto.
       * intros t Ht. apply in_map_iff in Ht. destruct Ht as [tb [<- Htb]]. cbn. apply sd_kt0. apply in_rn_parts. right. left.
         apply in_flat_map. exists c. split; [unfold recs; apply in_or_app; auto|apply in_map; exact Htb].
+      * intros m Hm. apply (sd_kx0 c m); [unfold recs; apply in_or_app; auto|exact Hm].
     + unfold f' in Gn. rewrite fs_get_put_other in Gn by exact E. eapply sf_kinds0; eassumption.
 Qed.
 
@@ -603,18 +613,25 @@ Proof. unfold fs_has. intros ->. reflexivity. Qed.
 Lemma safe_destroy w d x :
   Safe w -> get_db w d = Some x -> x_state x = Live ->
   (forall c, In c (x_pending x) -> In (c_id c) (g_dropped w)) ->
-  (forall c, In c (x_pending x) -> ~ protects w (N.to_nat d) (c_wal c)) ->
+  (forall c n, In c (x_pending x) -> In n (c_allw c) -> ~ protects w (N.to_nat d) n) ->
   Safe (set_db (fst (save_destroy w x)) d (snd (save_destroy w x))).
 Proof.
   intros S G L DR MON. pose proof (sf_db w S _ x G L) as SD. pose proof G as G'. rewrite get_db_nth in G'. destruct S.
-  unfold save_destroy. cbn [fst snd]. rewrite fold_del_map.
-  set (W := map c_wal (x_pending x)). set (f' := fold_left fs_del W (g_fs w)).
-  assert (forall n, (forall c, In c (x_pending x) -> c_wal c <> n) -> fs_get f' n = fs_get (g_fs w) n) as KEEP.
-  { intros n H. apply fold_del_get_other. apply mem_name_false. intros m Hm. apply in_map_iff in Hm. destruct Hm as [c [<- Hc]]. apply H. exact Hc. }
+  unfold save_destroy. cbn [fst snd].
+  set (W := flat_map c_allw (x_pending x)). set (f' := fold_left fs_del W (g_fs w)).
+  assert (forall n, (forall c m, In c (x_pending x) -> In m (c_allw c) -> m <> n) -> fs_get f' n = fs_get (g_fs w) n) as KEEP.
+  { intros n H. apply fold_del_get_other. apply mem_name_false. intros m Hm. apply in_flat_map in Hm. destruct Hm as [c [Hc Hm]]. eapply H; eassumption. }
+  assert (forall c m, In c (x_pending x) -> In m (c_allw c) -> kind m = 1) as KW1.
+  { intros c m Hc [<-|Hm]; destruct SD; [apply sd_kw0|apply (sd_kx0 c m)]; try assumption; unfold recs; apply in_or_app; auto. }
   assert (forall n, kind n <> 1 -> fs_get f' n = fs_get (g_fs w) n) as KEEPK.
-  { intros n K. apply KEEP. intros c Hc E. apply K. rewrite <- E. destruct SD. apply sd_kw0. unfold recs. apply in_or_app. auto. }
+  { intros n K. apply KEEP. intros c m Hc Hm E. apply K. rewrite <- E. eapply KW1; eassumption. }
   assert (forall n, protects w (N.to_nat d) n -> fs_get f' n = fs_get (g_fs w) n) as KEEPP.
-  { intros n P. apply KEEP. intros c Hc E. apply (MON c Hc). rewrite E. exact P. }
+  { intros n P. apply KEEP. intros c m Hc Hm E. apply (MON c m Hc Hm). rewrite E. exact P. }
+  assert (forall c, In c (x_ckpts x) -> forall p m, In p (x_pending x) -> In m (c_allw p) -> m <> c_wal c) as NWK.
+  { intros c Hc p m Hp Hm E. destruct SD. unfold recs in sd_wals0. rewrite flat_map_app in sd_wals0.
+    eapply (nodup_app_disj _ _ (c_wal c) sd_wals0).
+    - apply in_flat_map. exists c. split; [exact Hc|left; reflexivity].
+    - rewrite <- E. apply in_flat_map. exists p. auto. }
   constructor; cbn [set_db set_fs g_fs g_dbs g_handles g_dropped g_nextdir]; fold f'.
   - intros i y Hy Ly. destruct (upd_nth_inv _ _ _ _ _ Hy) as [z [Hz [[E1 E2]|[E1 E2]]]]; subst.
     + (* the acting object *)
@@ -628,8 +645,9 @@ Proof.
         unfold recs in *. cbn. rewrite app_nil_r. apply in_app_or in Hc. destruct Hc as [Hc|Hc]; [exact Hc|].
         exfalso. apply ND. destruct A as [A1 _]. destruct (find_doc_in _ _ _ Fd) as [_ E]. rewrite <- E, A1. apply DR. exact Hc.
       * unfold recs in *. cbn. rewrite app_nil_r. rewrite map_app in sd_ids0. eapply nodup_app_l. exact sd_ids0.
-      * unfold recs in *. cbn. rewrite app_nil_r. rewrite map_app in sd_wals0. eapply nodup_app_l. exact sd_wals0.
+      * unfold recs in *. cbn. rewrite app_nil_r. rewrite flat_map_app in sd_wals0. eapply nodup_app_l. exact sd_wals0.
       * intros c Hc. apply sd_kw0. unfold recs in *. cbn in Hc. rewrite app_nil_r in Hc. apply in_or_app. auto.
+      * intros c n Hc. apply sd_kx0. unfold recs in *. cbn in Hc. rewrite app_nil_r in Hc. apply in_or_app. auto.
       * exact sd_ko0.
       * intros n Hn. apply sd_kt0. apply in_rn_parts in Hn. apply in_rn_parts. cbn in Hn. unfold recs in *. cbn in Hn. rewrite app_nil_r in Hn.
         destruct Hn as [Hn|[Hn|[Hn|Hn]]]; auto. right. left. rewrite flat_map_app. apply in_or_app. auto.
@@ -637,10 +655,7 @@ Proof.
       * intros id H ND. destruct (sd_inflight0 id H ND) as [c [Hc [E Hf]]].
         unfold recs in Hc. apply in_app_or in Hc. destruct Hc as [Hc|Hc]; [|exfalso; apply ND; rewrite <- E; apply DR; exact Hc].
         exists c. split; [unfold recs; cbn; rewrite app_nil_r; exact Hc|]. split; [exact E|].
-        assert (forall p, In p (x_pending x) -> c_wal p <> c_wal c) as NW.
-        { intros p Hp Ew. unfold recs in sd_wals0. rewrite map_app in sd_wals0.
-          eapply (nodup_app_disj _ _ (c_wal c) sd_wals0); [apply in_map; exact Hc|rewrite <- Ew; apply in_map; exact Hp]. }
-        rewrite (fs_has_get _ _ _ (KEEP _ NW)). exact Hf.
+        rewrite (fs_has_get _ _ _ (KEEP _ (NWK c Hc))). exact Hf.
     + (* every other live object is protected by the monitor *)
       pose proof (sf_db0 _ _ Hz Ly) as SY. destruct SY.
       assert (forall n, In n (rn z) \/ (exists c id, In c (recs z) /\ c_id c = id /\ In (id, true) (x_cktasks z) /\ n = c_wal c) \/ n = (x_dir z, 2, 0) ->
@@ -661,13 +676,12 @@ Proof.
       { unfold recs in Hc. apply in_app_or in Hc. destruct Hc as [Hc|Hc]; [exact Hc|].
         exfalso. apply ND. destruct (find_doc_in _ _ _ G2) as [_ E]. rewrite <- E, A1. apply DR. exact Hc. }
       split; [rewrite KEEPK by (cbn; discriminate); exact G1|]. split; [exact G2|].
-      intros n Hn. assert (forall p, In p (x_pending x) -> c_wal p <> n) as NW; [|rewrite (fs_has_get _ _ _ (KEEP _ NW)); apply G3; exact Hn].
-      intros p Hp Ew. unfold doc_files in Hn. destruct Hn as [Hn|Hn].
-      * unfold recs in sd_wals0. rewrite map_app in sd_wals0.
-        eapply (nodup_app_disj _ _ (c_wal c) sd_wals0); [apply in_map; exact Hck|rewrite <- A2, Hn, <- Ew; apply in_map; exact Hp].
+      intros n Hn. assert (forall p m, In p (x_pending x) -> In m (c_allw p) -> m <> n) as NW; [|rewrite (fs_has_get _ _ _ (KEEP _ NW)); apply G3; exact Hn].
+      intros p m Hp Hm Ew. unfold doc_files in Hn. destruct Hn as [Hn|Hn].
+      * apply (NWK c Hck p m Hp Hm). rewrite Ew, <- Hn. exact A2.
       * rewrite A3 in Hn. assert (kind n = 0) as K0.
         { apply sd_kt0. apply in_rn_parts. right. left. apply in_flat_map. exists c. split; [exact Hc|exact Hn]. }
-        assert (kind (c_wal p) = 1) as K1 by (apply sd_kw0; unfold recs; apply in_or_app; auto). rewrite Ew in K1. lia.
+        pose proof (KW1 p m Hp Hm) as K1. rewrite Ew in K1. lia.
     + assert (forall n, In n (doc_files dd) \/ n = (D, 2, 0) -> fs_get f' n = fs_get (g_fs w) n) as PH.
       { intros n H. apply KEEPP. right. exists id, D, docs, dd. repeat split; try assumption.
         intros [x0 [Hx0 [_ Ex0]]]. rewrite G' in Hx0. inversion Hx0; subst. apply NE. reflexivity. }
@@ -717,8 +731,9 @@ Proof.
   - intros n H. apply sd_reach0, RE, H.
   - intros docs id dd Gd Fd Hh ND. destruct (sd_docs0 docs id dd Gd Fd Hh ND) as [c [Hc A]]. exists c. split; [apply IE; exact Hc|exact A].
   - eapply Permutation_NoDup; [apply Permutation_map; exact P|exact sd_ids0].
-  - eapply Permutation_NoDup; [apply Permutation_map; exact P|exact sd_wals0].
+  - eapply Permutation_NoDup; [apply Permutation_flat_map; exact P|exact sd_wals0].
   - intros c Hc. apply sd_kw0, IE, Hc.
+  - intros c n Hc. apply sd_kx0, IE, Hc.
   - exact sd_ko0.
   - intros n H. apply sd_kt0, RE, H.
   - intros c Hc. apply sd_walid0, IE, Hc.
@@ -789,7 +804,7 @@ Proof.
     + exact G1.
     + exact L1.
     + intros c Hc. cbn. apply in_or_app. right. apply in_map. exact Hc.
-    + intros c Hc P. apply (MON eq_refl c Hc). eapply protects_self; eassumption.
+    + intros c n Hc Hn P. apply (MON eq_refl c n Hc Hn). eapply protects_self; eassumption.
 Qed.
 
 Lemma safe_step_retain w d ids f :
@@ -849,7 +864,7 @@ Qed.
 
 (* after a Save that succeeded, the checkpoints file holds exactly the documents of the list *)
 Lemma save_ok_file w d x f :
-  snd (save_list_f w x f) = true -> (forall c, In c (x_pending x) -> kind (c_wal c) = 1) ->
+  snd (save_list_f w x f) = true -> (forall c n, In c (x_pending x) -> In n (c_allw c) -> kind n = 1) ->
   fs_get (g_fs (set_db (fst (fst (save_list_f w x f))) d (snd (fst (save_list_f w x f))))) (x_dir x, 2, 0) = Some (FCk (map doc_of (x_ckpts x))) /\
   x_ckpts (snd (fst (save_list_f w x f))) = x_ckpts x /\ x_dir (snd (fst (save_list_f w x f))) = x_dir x /\
   x_state (snd (fst (save_list_f w x f))) = x_state x /\ x_cktasks (snd (fst (save_list_f w x f))) = x_cktasks x /\
@@ -858,9 +873,9 @@ Lemma save_ok_file w d x f :
 Proof.
   unfold save_list_f. destruct (f =? 1); [discriminate|].
   destruct ((f =? 2) && negb (match x_pending x with [] => true | _ => false end)); [discriminate|].
-  intros _ K. unfold save_destroy, save_write. cbn. rewrite fold_del_map. repeat split.
+  intros _ K. unfold save_destroy, save_write. cbn. repeat split.
   rewrite fold_del_get_other; [apply fs_get_put_same|].
-  apply mem_name_false. intros m Hm E. apply in_map_iff in Hm. destruct Hm as [c [<- Hc]]. specialize (K c Hc). rewrite E in K. discriminate.
+  apply mem_name_false. intros m Hm E. apply in_flat_map in Hm. destruct Hm as [c [Hc Hm]]. specialize (K c m Hc Hm). rewrite E in K. discriminate.
 Qed.
 
 Lemma safe_add_handle w d y id :
@@ -914,7 +929,7 @@ Proof.
     rewrite EQ. destruct (snd (save_list_f w x f)) eqn:OKB.
     + (* the handle is returned *)
       destruct (save_ok_file w d x f OKB) as [FILE [ECK [EDR [EST [ETK [EPD EDP]]]]]].
-      { intros c Hc. destruct (sf_db w S _ x G L). apply sd_kw0. unfold recs. apply in_or_app. auto. }
+      { intros c n Hc [<-|Hn]; destruct (sf_db w S _ x G L); [apply sd_kw0|apply (sd_kx0 c n)]; try assumption; unfold recs; apply in_or_app; auto. }
       fold w1' x2' R in FILE, ECK, EDR, EST, ETK, EPD, EDP.
       replace (add_handle (set_db R d (ckpt_x1 x2' id)) (id, x_dir x)) with (set_db (add_handle R (id, x_dir x)) d (ckpt_x1 x2' id)) by reflexivity.
       apply safe_task_removed; [|exact GR].
@@ -1013,14 +1028,14 @@ Proof.
       cbn in Hf. rewrite N.eqb_refl in Hf. rewrite andb_false_r in Hf. discriminate. }
     destruct (sf_handles _ S0 id hd HIN ND') as [docs' [dd' [G1 [G2 G3]]]]. cbn [add_dropped g_fs] in G1, G3.
     rewrite GF in G1. inversion G1; subst docs'. rewrite FD in G2. inversion G2; subst dd'.
-    destruct (sf_kinds w S _ _ dd GF (proj1 (find_doc_in _ _ _ FD))) as [KW KT].
+    destruct (sf_kinds w S _ _ dd GF (proj1 (find_doc_in _ _ _ FD))) as [KW [KT KX]].
     apply safe_add_db; [exact S0|]. intros _.
     destruct (after_rotations_fields (mkW core dir o nb
-        (fold_right (fun t a => N.max (num_of (td_name t) + 1) a) 0 (dc_tables dd)) [mkCk (dc_id dd) ts (dc_wal dd) content (dc_after dd) (dc_lastseq dd)] []
+        (fold_right (fun t a => N.max (num_of (td_name t) + 1) a) 0 (dc_tables dd)) [mkCk (dc_id dd) ts (dc_wal dd) content (dc_after dd) (dc_lastseq dd) []] []
         FNone 0 CNone 0 [] (map (fun t => mkObj (td_name t) true (td_lo t) (td_hi t)) (dc_tables dd)) Live) rots)
       as [Ec [Ed [Ek [Ep [Et [Eo [Es [Em Ef]]]]]]]].
     set (x0 := mkW core dir o nb (fold_right (fun t a => N.max (num_of (td_name t) + 1) a) 0 (dc_tables dd))
-                   [mkCk (dc_id dd) ts (dc_wal dd) content (dc_after dd) (dc_lastseq dd)] [] FNone 0 CNone 0 []
+                   [mkCk (dc_id dd) ts (dc_wal dd) content (dc_after dd) (dc_lastseq dd) []] [] FNone 0 CNone 0 []
                    (map (fun t => mkObj (td_name t) true (td_lo t) (td_hi t)) (dc_tables dd)) Live) in *.
     assert (map t_name ts = map td_name (dc_tables dd)) as NT by (unfold ts; rewrite map_map; reflexivity).
     split; [|split].
@@ -1029,7 +1044,7 @@ Proof.
       { constructor; unfold recs; cbn [x0 x_ckpts x_pending x_dir x_objs x_cktasks x_core app].
         - intros n Hn. apply G3. apply in_rn_parts in Hn. unfold recs in Hn. cbn in Hn. rewrite CT, !app_nil_r in Hn. unfold doc_files. right.
           rewrite <- NT. destruct Hn as [Hn|[Hn|[[]|[]]]]; exact Hn.
-        - intros dcs id0 d0 Gd Fd Hh ND0. exists (mkCk (dc_id dd) ts (dc_wal dd) content (dc_after dd) (dc_lastseq dd)). split; [left; reflexivity|].
+        - intros dcs id0 d0 Gd Fd Hh ND0. exists (mkCk (dc_id dd) ts (dc_wal dd) content (dc_after dd) (dc_lastseq dd) []). split; [left; reflexivity|].
           destruct same.
           + unfold dir in Gd, Hh. rewrite GF in Gd. inversion Gd; subst dcs.
             destruct (N.eq_dec id0 id) as [->|NE].
@@ -1040,6 +1055,7 @@ Proof.
         - constructor; [intros []|constructor].
         - constructor; [intros []|constructor].
         - intros c [<-|[]]. exact KW.
+        - intros c n [<-|[]] [].
         - intros ob Hob. apply in_map_iff in Hob. destruct Hob as [t [<- Ht]]. cbn. apply KT. exact Ht.
         - intros n Hn. apply in_rn_parts in Hn. unfold recs in Hn. cbn in Hn. rewrite CT, !app_nil_r, NT in Hn.
           assert (In n (map td_name (dc_tables dd))) as Hn' by (destruct Hn as [Hn|[Hn|[[]|[]]]]; exact Hn).
@@ -1059,6 +1075,89 @@ Proof.
     + rewrite Ed. cbn [x0 x_dir add_dropped g_nextdir]. destruct same; cbn [negb].
       * unfold dir. apply (sf_hdirs w S _ _ HIN).
       * unfold dir. lia.
+Qed.
+
+(* a further fresh database *)
+Lemma safe_step_open w nd : Safe w -> Safe (step w (OOpen nd)).
+Proof.
+  intro S. cbn [step]. apply safe_add_db; [exact S|]. intros _. cbn [x_dir]. split; [|split].
+  - constructor; unfold recs; cbn; try (intros; contradiction); try constructor; try (intros; discriminate).
+    intros docs id d _ _ Hh. exfalso. pose proof (sf_hdirs w S _ _ Hh). lia.
+  - intros i y Hy Ly E. pose proof (sf_dirs w S _ _ Hy Ly). lia.
+  - lia.
+Qed.
+
+(* restore from the handles of several instances *)
+Lemma load_docs_spec w id dirs : forall ds, load_docs w id dirs = inl (Some ds) ->
+  forall d, In d ds -> exists hd docs, In (id, hd) (g_handles w) /\ fs_get (g_fs w) (hd, 2, 0) = Some (FCk docs) /\ find_doc docs id = Some d.
+Proof.
+  induction dirs as [|hd rest IH]; intros ds H d Hd; cbn [load_docs] in H.
+  - inversion H; subst. destruct Hd.
+  - destruct (existsb (fun h => (fst h =? id) && (snd h =? hd)) (g_handles w)) eqn:EX; cbn [negb] in H; [|discriminate].
+    destruct (fs_get (g_fs w) (hd, 2, 0)) as [[| |docs]|] eqn:GF; try discriminate.
+    destruct (find_doc docs id) as [d0|] eqn:FD; [|discriminate].
+    destruct (load_docs w id rest) as [[ds0|]|c] eqn:LR; try discriminate. inversion H; subst ds.
+    destruct Hd as [<-|Hd].
+    + exists hd, docs. split; [|auto]. apply existsb_exists in EX. destruct EX as [[i D] [Hh E]]. cbn in E.
+      apply andb_true_iff in E. destruct E as [E1 E2]. apply N.eqb_eq in E1, E2. subst. exact Hh.
+    + apply (IH ds0 eq_refl d Hd).
+Qed.
+
+Lemma safe_step_restoreM w nd id dirs o nb : Safe w -> step_ok w (ORestoreM nd id dirs o nb) -> Safe (step w (ORestoreM nd id dirs o nb)).
+Proof.
+  intros S [ND MON]. cbn [step].
+  destruct (open_fromM w id dirs (g_nextdir w) o nb) as [code|x] eqn:OP.
+  - apply safe_add_db; [exact S|]. cbn. discriminate.
+  - unfold open_fromM in OP. destruct (load_docs w id dirs) as [[[|d1 ds]|]|c] eqn:LD; try discriminate.
+    destruct (replay_docs (g_fs w) (d1 :: ds)) as [[es|]|c] eqn:RP; try discriminate.
+    set (tds := flat_map dc_tables (d1 :: ds)) in *. set (ts := map (table_of_doc (g_fs w)) tds) in *.
+    set (walid := fold_right (fun d a => N.max (num_of (dc_wal d)) a) 0 (d1 :: ds)) in *.
+    destruct (db_restore (g_mem w) (g_walmax w) o ts walid es) as [core rots] eqn:DR.
+    inversion OP; subst x. clear OP.
+    destruct (MON _ eq_refl) as [NDW NDIR].
+    assert (d_tables core = ts) as CT.
+    { pose proof (db_replay_core o es (mkDb (tables_latest ts) [] [] ts (tables_latest ts) (wal_new (walid + 1)) (g_mem w) (g_walmax w))) as E.
+      unfold db_restore in DR. rewrite DR in E. cbn [fst] in E. rewrite E.
+      destruct (replay_core_fields o es (mkDb (tables_latest ts) [] [] ts (tables_latest ts) (wal_new (walid + 1)) (g_mem w) (g_walmax w))) as [A _].
+      rewrite A. reflexivity. }
+    (* every document comes from a completed handle that no saved update dropped: its files exist *)
+    assert (forall d, In d (d1 :: ds) -> kind (dc_wal d) = 1 /\ forall t, In t (dc_tables d) -> kind (td_name t) = 0 /\ fs_has (g_fs w) (td_name t) = true) as DOCS.
+    { intros d Hd. destruct (load_docs_spec w id dirs _ LD d Hd) as [hd [docs [Hh [GF FD]]]].
+      destruct (sf_handles w S id hd Hh ND) as [docs' [d' [G1 [G2 G3]]]]. rewrite GF in G1. inversion G1; subst docs'. rewrite FD in G2. inversion G2; subst d'.
+      destruct (sf_kinds w S _ _ d GF (proj1 (find_doc_in _ _ _ FD))) as [KW [KT _]].
+      split; [exact KW|]. intros t Ht. split; [apply KT; exact Ht|]. apply G3. right. apply in_map. exact Ht. }
+    assert (forall t, In t tds -> kind (td_name t) = 0 /\ fs_has (g_fs w) (td_name t) = true) as TDS.
+    { intros t Ht. unfold tds in Ht. apply in_flat_map in Ht. destruct Ht as [d [Hd Ht]]. apply (proj2 (DOCS d Hd) t Ht). }
+    assert (map t_name ts = map td_name tds) as NT by (unfold ts; rewrite map_map; reflexivity).
+    apply safe_add_db; [exact S|]. intros _.
+    match goal with |- context [after_rotations ?X rots] => set (x0 := X) end.
+    destruct (after_rotations_fields x0 rots) as [Ec [Ed [Ek [Ep [Et [Eo [Es [Em Ef]]]]]]]].
+    split; [|split].
+    + assert (safe_db (g_fs w) (g_handles w) (g_dropped w) x0) as SX0.
+      { constructor; unfold recs; cbn [x0 x_ckpts x_pending x_dir x_objs x_cktasks x_core app].
+        - intros n Hn. apply in_rn_parts in Hn. unfold recs in Hn. cbn in Hn. rewrite ?CT, ?app_nil_r in Hn.
+          assert (In n (map td_name tds)) as Hn' by (rewrite <- NT; destruct Hn as [Hn|[Hn|[[]|[]]]]; exact Hn).
+          apply in_map_iff in Hn'. destruct Hn' as [t [<- Ht]]. apply TDS. exact Ht.
+        - intros dcs id0 d0 _ _ Hh. exfalso. pose proof (sf_hdirs w S _ _ Hh). lia.
+        - constructor; [intros []|constructor].
+        - cbn [flat_map c_allw c_wal c_xw app]. rewrite app_nil_r. exact NDW.
+        - intros c [<-|[]]. cbn. apply DOCS. left. reflexivity.
+        - intros c n [<-|[]] Hn. cbn in Hn. apply in_map_iff in Hn. destruct Hn as [d [<- Hd]]. split.
+          + apply DOCS. right. exact Hd.
+          + apply NDIR. right. exact Hd.
+        - intros ob Hob. apply in_map_iff in Hob. destruct Hob as [t [<- Ht]]. cbn. apply TDS. exact Ht.
+        - intros n Hn. apply in_rn_parts in Hn. unfold recs in Hn. cbn in Hn. rewrite ?CT, ?app_nil_r in Hn.
+          assert (In n (map td_name tds)) as Hn' by (rewrite <- NT; destruct Hn as [Hn|[Hn|[[]|[]]]]; exact Hn).
+          apply in_map_iff in Hn'. destruct Hn' as [t [<- Ht]]. apply TDS. exact Ht.
+        - intros c [<-|[]] E. exfalso. cbn in E. apply (NDIR d1 (or_introl eq_refl)). exact E.
+        - intros id0 []. }
+      eapply safe_db_step; [exact SX0|apply fs_mono_refl|apply ck_same_refl|exact Ed|exact Ek|exact Ep| | | |].
+      * rewrite Et. intros id0 [].
+      * rewrite Eo. auto.
+      * intros n Hn. left. eapply rn_after_rotations. exact Hn.
+      * rewrite Ec. lia.
+    + rewrite Ed. cbn [x0 x_dir]. intros i y Hy Ly E. pose proof (sf_dirs w S _ _ Hy Ly). lia.
+    + rewrite Ed. cbn [x0 x_dir]. lia.
 Qed.
 
 (* ------------------------------------------------------------------ the collection *)
@@ -1189,7 +1288,7 @@ Qed.
 
 Theorem safe_step w o : Safe w -> step_ok w o -> Safe (step w o).
 Proof.
-  intros S OK. destruct o as [d k v rot|d k rot|d id|d|d r|d id|d ids|d ids f|d id f|d|nd id same ow nb|d|d| |d].
+  intros S OK. destruct o as [d k v rot|d k rot|d id|d|d r|d id|d ids|d ids f|d id f|d|nd id same ow nb|nd id dirs ow nb|nd|d|d| |d].
   - apply safe_write. exact S.
   - apply safe_write. exact S.
   - apply safe_step_ckpt_call; assumption.
@@ -1201,6 +1300,8 @@ Proof.
   - cbn [step]. apply safe_step_ckpt; [exact S|exact OK].
   - apply safe_step_flush_fail. exact S.
   - apply safe_step_restore; assumption.
+  - apply safe_step_restoreM; assumption.
+  - apply safe_step_open. exact S.
   - cbn [step]. destruct (get_db w d) as [x|] eqn:G; [|exact S]. eapply safe_unlive; [exact S|exact G|reflexivity|cbn; discriminate].
   - cbn [step]. destruct (get_db w d) as [x|] eqn:G; [|exact S]. eapply safe_unlive; [exact S|exact G|reflexivity|cbn; discriminate].
   - apply safe_step_gc; assumption.
